@@ -58,8 +58,8 @@ def run (t : Tier) : Emit Unit := do
   -- byte shorter / longer: the payload is delivered whole
   for c in [1024, 1152, 1280, 1536, 2048, 3072, 4096, 8192, 66000] do
     let mut units : List TSUnit := []
-    -- (66000: one unit beyond 64 KiB, then a small one)
-    for total in (if c = 66000 then [c, 500] else [c - 1, c, c, c + 1, c]) do
+    -- (66000: one unit beyond 64 KiB, then a small one, a big one, medium and small ones: a buffer much larger than needed)
+    for total in (if c = 66000 then [c, 500, 40000, 3000, 1500, 200, 9000, 1025] else [c - 1, c, c, c + 1, c]) do
       let n := total - 9
       let payload ← liftGen (randBytes n)
       let h : PESHeader := { optionalHeader := some { markerBits := 2, headerLength := 0 }, streamID := 0xe0, packetLength := 0 }
@@ -88,10 +88,19 @@ def run (t : Tier) : Emit Unit := do
     let spec := tablePositions m2 [0, 0x1000] (·.sectionsEnd)
     emit "C02" (demuxCase m2.bytes { view := .tablepos } none (some spec) "pmt-pid-seen-before-pat")
     emit "C02" (demuxCase m2.bytes { view := .perpid } none (some (showPerPID m2.expected 0 "eof")) "pmt-pid-seen-before-pat-data")
+    -- … and packets of one, two, three other PIDs nobody announces between that unit and the PAT
+    for extra in [1, 2, 3] do
+      let others := (List.range extra).map fun k => ({ pid := 0x300 + k, payload := [9, 9, 9, 9, 9], data := [], psi := false, chunks := [5] } : TSUnit)
+      -- (order: the stray unit, the unknown PIDs, the whole PAT, every PMT packet, then the elementary streams — no other
+      -- PID is seen between the PAT and the PMTs)
+      let m3 : StreamModel := { units := [strayU] ++ others ++ m.units, schedule := [0x1000] ++ others.map (·.pid) ++ List.replicate 60 0 ++ List.replicate 400 0x1000 }
+      emit "C02" (demuxCase m3.bytes { view := .perpid } none (some (showPerPID m3.expected 0 "eof")) "pmt-pid-and-unknown-pids-seen-before-pat")
   -- sections the library does not decode (TDT 0x70, RST 0x71, BAT 0x4a, ST 0x72, DIT 0x7e, SIT 0x7f) are stepped over by
   -- their section_length: the sections that follow them in the same unit are delivered
-  for tid in [0x70, 0x71, 0x4a, 0x72, 0x7e, 0x7f] do
-    let body ← liftGen (randBytes (← liftGen (randRange 1 20)))
+  -- (also with section_length 0: a bare header)
+  for tid in [0x70, 0x71, 0x4a, 0x72, 0x7e, 0x7f, 0x1070, 0x1072, 0x104a] do
+    let body ← (if tid ≥ 0x1000 then pure [] else do liftGen (randBytes (← liftGen (randRange 1 20))) : Emit Bytes)
+    let tid := tid % 0x1000
     let raw : Bytes := [tid, 0x70 + body.length / 256, body.length % 256] ++ body
     let (s1, b1) ← liftGen (genSectionOfKind 5 false)
     let (s2, b2) ← liftGen (genSectionOfKind 5 false)
